@@ -119,6 +119,47 @@ fn main() {
             for m in wl::limits::MISUSE { println!("{m}"); }
             0
         }
+        "expert" => {
+            quiet_panics();
+            let seed: u64 = args[2].parse().unwrap();
+            let shard: u64 = args[3].parse().unwrap();
+            let count: u64 = args[4].parse().unwrap();
+            println!("{}", wl::expert::run(seed, shard, count).to_string());
+            0
+        }
+        "expert-one" => {
+            if std::env::var("VH_LOUD").is_err() { quiet_panics(); }
+            let o = wl::expert::run_history(args[2].parse().unwrap());
+            for a in &o.actions { println!("{a}"); }
+            if let Some(m) = o.violation { println!("VIOLATION C14 {m}"); 1 } else { 0 }
+        }
+        "maps" => {
+            quiet_panics();
+            let which = args[2].as_str();
+            let seed: u64 = args[3].parse().unwrap();
+            let shard: u64 = args[4].parse().unwrap();
+            let count: u64 = args[5].parse().unwrap();
+            println!("{}", wl::maps::run(which, seed, shard, count).to_string());
+            0
+        }
+        "maps-one" => {
+            if std::env::var("VH_LOUD").is_err() { quiet_panics(); }
+            let o = wl::maps::run_history(args[3].parse().unwrap(), &args[2]);
+            for a in &o.actions { println!("{a}"); }
+            for (p, m) in &o.violations { println!("VIOLATION {p} {m}"); }
+            if o.violations.is_empty() { 0 } else { 1 }
+        }
+        "symdiff" => {
+            quiet_panics();
+            let j = match args[2].as_str() {
+                "fold" => wl::symdiff::run_symfold(),
+                "merge-btree" => wl::symdiff::run_merge::<wl::maps::B>(args[3].parse().unwrap(), args[4].parse().unwrap()),
+                "merge-ordmap" => wl::symdiff::run_merge::<im_rc::OrdMap<i64, i64>>(args[3].parse().unwrap(), args[4].parse().unwrap()),
+                _ => wl::symdiff::run_random(args[3].parse().unwrap(), args[4].parse().unwrap()),
+            };
+            println!("{}", j.to_string());
+            0
+        }
         "memo" => {
             quiet_panics();
             let seed: u64 = args[2].parse().unwrap();
@@ -132,6 +173,25 @@ fn main() {
             let o = wl::memo::run_history(args[2].parse().unwrap());
             for a in &o.actions { println!("{a}"); }
             if let Some(m) = o.violation { println!("VIOLATION C20 {m}"); 1 } else { 0 }
+        }
+        "faults" => {
+            quiet_panics();
+            let get = |name: &str| args.iter().position(|a| a == name).and_then(|i| args.get(i + 1)).cloned();
+            let profile = get("--profile").unwrap_or("core".into());
+            let seed: u64 = get("--seed").and_then(|s| s.parse().ok()).unwrap_or(1);
+            let shard: u64 = get("--shard").and_then(|s| s.parse().ok()).unwrap_or(0);
+            let count: u64 = get("--count").and_then(|s| s.parse().ok()).unwrap_or(100);
+            let start: u64 = get("--start").and_then(|s| s.parse().ok()).unwrap_or(0);
+            let cap: u64 = get("--cap").and_then(|s| s.parse().ok()).unwrap_or(40);
+            let progress = get("--progress");
+            println!("{}", core::run_fault_shard(&profile, seed, shard, start, count, cap, progress.as_deref()).to_string());
+            0
+        }
+        "fault-one" => {
+            if std::env::var("VH_LOUD").is_err() { quiet_panics(); }
+            let r = core::fault_run(&core::profile(&args[2]), args[3].parse().unwrap(), args[4].parse().unwrap(), args[5].parse().unwrap(), 1);
+            for v in &r.violations { println!("VIOLATION {} {}", v.prop, v.msg); }
+            if r.violations.is_empty() { 0 } else { 1 }
         }
         "list-directed" => {
             for sc in directed::all() {
